@@ -29,7 +29,8 @@ class PyFunc:
     @property
     def body(self):
         if self._body is None:
-            self._body = PyLowerer(self.mod, self).block(self.node.body)
+            from .ir import normalise
+            self._body = normalise(PyLowerer(self.mod, self).block(self.node.body))
         return self._body
 
     def __repr__(self):
